@@ -78,8 +78,9 @@ Upd(e) ==
             LET a2 == IF e.point = "track.add" THEN added \cup {e.conn} ELSE added
                 r2 == IF e.point = "track.remove" THEN removed \cup {e.conn} ELSE removed
                 c2 == IF e.point \in {"conn.closed", "sd.close"} THEN sclosed \cup {e.conn} ELSE sclosed
-                hi == Cardinality(a2 \ r2)
-                lo == Cardinality((a2 \ r2) \ c2)
+                \* (a connection whose close callback has been called is live by no reading of the statement)
+                hi == Cardinality((a2 \ r2) \ closeCalled)
+                lo == Cardinality(((a2 \ r2) \ c2) \ closeCalled)
             IN /\ added' = a2 /\ removed' = r2 /\ sclosed' = c2
                /\ accepted' = IF e.point = "accept.ret" THEN accepted \cup {e.conn} ELSE accepted
                /\ rejClosed' = IF e.point = "accept.rejected" THEN rejClosed \cup {e.conn} ELSE rejClosed
@@ -91,7 +92,8 @@ Upd(e) ==
             /\ UNCHANGED <<cfg, added, removed, sclosed, accepted, winLo, winHi, rejClosed, closeCalled, started, replied, hung, sdNil, startedAtSd, cancelled, serveRet, lfailed, sdCalled>>
       [] e.ev = "cb.close" ->
             /\ closeCalled' = closeCalled \cup {e.conn}
-            /\ UNCHANGED <<cfg, added, removed, sclosed, accepted, winLo, winHi, rejected, rejClosed, started, replied, hung, sdNil, startedAtSd, cancelled, serveRet, lfailed, sdCalled>>
+            /\ winLo' = Min(winLo, Cardinality(((added \ removed) \ sclosed) \ (closeCalled \cup {e.conn})))
+            /\ UNCHANGED <<cfg, added, removed, sclosed, accepted, winHi, rejected, rejClosed, started, replied, hung, sdNil, startedAtSd, cancelled, serveRet, lfailed, sdCalled>>
       [] e.ev = "handler.start" ->
             /\ started' = started \cup {e.conn}
             /\ UNCHANGED <<cfg, added, removed, sclosed, accepted, winLo, winHi, rejected, rejClosed, closeCalled, replied, hung, sdNil, startedAtSd, cancelled, serveRet, lfailed, sdCalled>>
